@@ -109,7 +109,7 @@ Proof.
   destruct (has_sflags tr && _); [|apply tfhd_fr_refl]. apply tf_set_fr.
 Qed.
 Lemma opt_cto_tf tf tr : fst (opt_cto tf tr) = tf.
-Proof. unfold opt_cto. destruct (has_cto tr && _); reflexivity. Qed.
+Proof. unfold opt_cto. destruct (_ && _ && _); reflexivity. Qed.
 
 Lemma step_trun_fr bit r r' : step_ok bit r r' -> trun_fr r r'.
 Proof. intros S. repeat split; [apply (so_version _ _ _ S)|apply (so_samples _ _ _ S)|apply (so_won _ _ _ S)|apply (so_hdoff _ _ _ S)]. Qed.
